@@ -73,5 +73,8 @@ AllClasses == {"garbage", "half_request", "http_get_half", "trunc_header", "trun
                "illegal_state", "unknown_method", "options_ok", "frame_unknown_channel", "frame_before_play",
                "unsolicited_response", "http_get_valid", "ws_valid", "ws_earlydata",
                \* well-formed requests: hostile only through the configuration they meet (handler subsets)
-               "valid_pause", "valid_play", "valid_record", "valid_teardown", "valid_getparam"}
+               "valid_pause", "valid_play", "valid_record", "valid_teardown", "valid_getparam",
+               \* the peer stopped reading while media is written to it, asks for PAUSE and resets the
+               \* connection: a pending write fails while the request is being handled (React: close)
+               "stalled_pause"}
 =============================================================================
